@@ -20,7 +20,7 @@ RULE = ("rng: ring capacities {1..9, 16, 0 and -1 (=10000)} x pushed runs of con
         "hist: a registry with 2-3 IPv4, 2 IANA and 2 PD pools; 12-45 operations over 7 sessions (IPoE/PPPoE/L2GW, optional "
         "v4/IANA/PD/pool names/VRF/relay info/user, unknown and empty SRG, unparseable prefix, out-of-pool address) with "
         "in-order deliveries lagging behind the events, deliveries whose store write fails followed by their retransmission, duplicates and range replays ending at the newest delivered message "
-        "(mode clean; mode fresh: SRG 2 is delivered nothing until a bulk sync at the end that runs on a full ring while the active node handles 1-3 more events after every page), plus one trigger class per case: stale redelivery (mode stale), address change/drop by an update (mode "
+        "(mode clean; mode fresh: SRG 2 is delivered nothing until a bulk sync at the end that runs on a full ring while the active node handles 1-3 more events after every page), plus one trigger class per case: stale redelivery (mode stale), redelivery of a message that is still the newest delivered one of its session with address changes (mode latest: store and pools must converge on HEAD, only lastSeq may differ), address change/drop by an update (mode "
         "drop), bulk replay with deletes in the window (mode bulk), same address in two named pools (mode relall).  Every "
         "history ends with all messages delivered.  Non-trivial: rng case with at least one non-empty answer and one empty; "
         "hist case whose final store is non-empty and at least one session was released.  Distinct: by case text.")
@@ -228,6 +228,9 @@ def ev_token(s, rel):
 def gen_hist(rng, mode, nops):
     cap = rng.choice([2, 3, 4, 8, 64])
     fresh = mode == "fresh"       # SRG 2's standby side is fresh: nothing is delivered until a bulk sync at the end,
+    latest = mode == "latest"     # duplicates of the newest delivered message OF A SESSION (hypothesis of C11_*_head)
+    if latest:
+        mode = "drop"             # addresses may change or be dropped by updates
     wrapped = mode == "freshwrap" # which runs while the active node keeps renewing a session (ring exactly full);
     if fresh:                     # freshwrap: the same with a backlog that has wrapped before the bulk sync
         mode = "clean"
@@ -291,7 +294,10 @@ def gen_hist(rng, mode, nops):
             g = 1 if fresh else rng.choice([1, 2])
             m = nxt[g]
             y = rng.random()
-            if mode == "stale" and m >= 2 and y < 0.6:
+            if latest and m >= 1:
+                cand = [k for k in range(1, m + 1) if not any(key == sent[g][k - 1][1] for _, key in sent[g][k:m])]
+                ops.append("R:%d:%d" % (g, rng.choice(cand)))
+            elif mode == "stale" and m >= 2 and y < 0.6:
                 if rng.random() < 0.6:
                     # prefer an update of a session whose release has been delivered since
                     cand = [k for k in range(1, m) if not sent[g][k - 1][0] and
@@ -359,14 +365,14 @@ def gen_hist(rng, mode, nops):
                 ops.append("R:%d:%d" % (g, k))
     if mode == "clean" and rng.random() < 0.2:
         ops.append("D:1")                      # nothing left: no-op
-    return "hist %s %d %d %s %s" % ("freshwrap" if wrapped else "fresh" if fresh else mode, cap, page, " ".join(pool_tokens(mode)), " ".join(ops))
+    return "hist %s %d %d %s %s" % ("latest" if latest else "freshwrap" if wrapped else "fresh" if fresh else mode, cap, page, " ".join(pool_tokens(mode)), " ".join(ops))
 
 
 def gen_cases(rng, tier, budget):
     out = []
     gen_rng(rng, tier, out)
     n = (budget or 900) if tier == "quick" else (budget or 12000)
-    modes = ["clean"] * 2 + ["fresh", "freshwrap", "stale", "drop", "bulk", "relall"]
+    modes = ["clean"] * 2 + ["fresh", "freshwrap", "stale", "latest", "drop", "bulk", "relall"]
     for i in range(n):
         mode = modes[i % len(modes)]
         out.append(gen_hist(rng, mode, rng.randint(12, 45)))
@@ -465,6 +471,12 @@ def signature(case, impl, models):
             return SIG["stale"] if "stale" in trig else None
         if mode == "freshwrap":
             return SIG["freshwrap"] if "window" in trig else None
+        if mode == "latest":
+            # a message is delivered again only while it is the newest delivered one of its session: HEAD's lastSeq
+            # goes backwards (the recorded finding) but store and pools must be right (C11_converges_head,
+            # C11_pools_exact_head) — anything else is a violation
+            ok = _flags(impl) == ("ok", "ok")
+            return SIG["stale"] if ok and "stale" in trig else None
     return SIG.get(mode)
 
 
